@@ -36,6 +36,7 @@ import (
 	"strconv"
 	"strings"
 	"time"
+	"unicode/utf16"
 	"unicode/utf8"
 )
 
@@ -371,6 +372,11 @@ func filterEscapejs(in *Value, param *Value) (*Value, *Error) {
 
 		if (c >= 'a' && c <= 'z') || (c >= 'A' && c <= 'Z') || c == ' ' || c == '/' {
 			b.WriteRune(c)
+		} else if c > 0xFFFF {
+			// JavaScript's \uXXXX has exactly four digits: a character
+			// outside the BMP is written as a surrogate pair
+			hi, lo := utf16.EncodeRune(c)
+			b.WriteString(fmt.Sprintf(`\u%04X\u%04X`, hi, lo))
 		} else {
 			b.WriteString(fmt.Sprintf(`\u%04X`, c))
 		}
